@@ -439,6 +439,19 @@ def o155(ctx):
     q = TS + "TiltStack.__init__"
     m, fn = ctx.prog.func(q)
     ctx.touched(q, TS + "TiltStack.correct_order", TS + "TiltStack.write_out")
+    # the element type results are cast back to is the type of the stack AS GIVEN, captured once at construction: a `data_type` computed from the live
+    # array (a property, a method) is the type of whatever the array has become -- the casts in correct_order / write_out then compare it with itself
+    mc_, cn_ = ctx.prog.cls(TS + "TiltStack")
+    live = [d for d in cn_.body if isinstance(d, (ast.FunctionDef, ast.AsyncFunctionDef)) and d.name == "data_type"]
+    captured = [a for a in ast.walk(fn) if isinstance(a, ast.Assign) and any(isinstance(t, ast.Attribute) and isinstance(t.value, ast.Name) and t.value.id == "self"
+                                                                             and t.attr == "data_type" for t in a.targets)]
+    ctx.count(1, {"data_type captured in __init__": [norm_text(a)[:60] for a in captured], "data_type defined on the class": [d.name for d in live]})
+    if live:
+        ctx.finding(TS + "TiltStack", "element type of the stack", "`data_type` is computed from the live array (a property / method of the class) instead of being captured "
+                    "at construction: after an operation whose result has another type (block means, filtered images) it names that new type, so the casts back "
+                    "to the input's type in correct_order and write_out never fire -- an int16 stack comes back as float64", live[0], mc_)
+    elif not captured or not any(isinstance(x, ast.Attribute) and x.attr == "dtype" for a in captured for x in ast.walk(a.value)):
+        raise Unsupported("TiltStack.__init__: where the stack's element type is captured is not recognised", fn)
     for order in ("xyz", "zyx"):
         it = Interp(ctx.prog, assume=assume_map({"not isinstance(tilt_stack, np.ndarray)": False, "self.data.shape == 2": False}))
         me = Obj("tiltstack.TiltStack", {})
